@@ -71,7 +71,8 @@ func main() {
 		"later rebroadcast, interleaved with block events on an UNBUFFERED subscription channel, MarkAsConfirmed calls, rounds held open " +
 		"inside the callback, the handler held inside an initial broadcast, interval ticks (tick subset) and Stop at scripted points, " +
 		"followed by calls after Stop. Fingerprint = (DAG shape class, #tx bucket, outcome mix, trigger kinds, stop timing, " +
-		"confirmation timings). Non-trivial = at least one rebroadcast round was observed or at least one call was issued after Stop.")
+		"confirmation timings). Non-trivial = at least one rebroadcast round was observed or at least one call was issued after Stop. || " +
+		c15.L2Rule + " || " + c15.L2CoSubRule)
 	r.Assume("The harness' single mutex + sequence counter orders call/return events consistently with real time (call logged before, return after).")
 	r.Assume("RebroadcastInterval of 10h never fires in block-event schedules; rounds there come from block events only.")
 	r.Assume("Go goroutine ids are unique per process and runtime.Stack(all) lists every live goroutine with its creator.")
@@ -196,13 +197,15 @@ func main() {
 
 	// L2 part: one child process per scenario.
 	l2Start := time.Now()
-	var l2Evaluated, l2Replied, l2AllowedFailures, l2Rebroadcasts atomic.Int64
-	nL2 := r.Pick(12, 600)
+	var l2Evaluated, l2Replied, l2AllowedFailures, l2Rebroadcasts, l2CoJudged, l2CoDeep atomic.Int64
+	nL2 := r.Pick(16, 600)
 	l2.RunScenariosCB(r, nL2, 240*time.Second, c15.L2Scenario, func(res *l2.Result) {
 		l2Evaluated.Add(res.Counters["l2_calls_evaluated"])
 		l2Replied.Add(res.Counters["l2_calls_with_replies"])
 		l2AllowedFailures.Add(res.Counters["l2_allowed_failures"])
 		l2Rebroadcasts.Add(res.Counters["l2_rebroadcast_seen_by_all_peers"])
+		l2CoJudged.Add(res.Counters["l2_cosub_rebroadcast_judged"])
+		l2CoDeep.Add(res.Counters["l2_cosub_cancel_with_21plus_unread"])
 	})
 	r.Set("l2_phase_wall_s", time.Since(l2Start).Seconds())
 	r.Set("l2_scenarios", nL2)
@@ -218,6 +221,9 @@ func main() {
 			r.Broken("L2 part never observed a SendTransaction failure that the statement allows: the failure path is unobserved")
 		case l2Rebroadcasts.Load() == 0:
 			r.Broken("L2 part never observed a rebroadcast reaching every peer")
+		case nL2 >= 16 && (l2CoJudged.Load() == 0 || l2CoDeep.Load() == 0):
+			r.Broken(fmt.Sprintf("L2 co-subscriber family unobserved: %d scenarios judged, %d cancels with more unread notifications than the subscriber's channel buffers",
+				l2CoJudged.Load(), l2CoDeep.Load()))
 		}
 	}
 	if tickSchedules >= 5 && tickRounds == 0 {
